@@ -35,6 +35,16 @@ for sid in ids:
 for f in os.listdir(keep):
     shutil.copy2(os.path.join(keep, f), os.path.join(V, "evidence", f))
 shutil.rmtree(keep, ignore_errors=True)
+if sys.argv[1:]:
+    # partial run: keep the rows of the seeds that were not run
+    old = []
+    rp = os.path.join(V, "seeded", "RESULTS.md")
+    if os.path.exists(rp):
+        for l in open(rp):
+            c = [x.strip() for x in l.strip().strip("|").split("|")]
+            if len(c) == 4 and c[0] not in ("seed", "---") and c[0] not in ids:
+                old.append(tuple(c))
+    rows = sorted(old + rows)
 with open(os.path.join(V, "seeded", "RESULTS.md"), "w") as f:
     f.write("# Seeded changes against the quick checks (tools/run_seeds.py)\n\n| seed | check | verdict | first violation line |\n|---|---|---|---|\n")
     for r in rows:
